@@ -261,6 +261,17 @@ def run():
             os.remove(os.path.join(SPEC, cfg))
             if r.ok:
                 raise Inconclusive("as-coded Blocking model unexpectedly satisfies the properties: the model lost its discriminating power")
+    # the explicit-flush rendezvous (Flush / flushLoop): the loop always comes back to its outer select; the variant that does not watch
+    # the caller's Done channel (seed C08-8) must violate it
+    ctx.l1("FlushRendezvous", "FlushRendezvous_q.cfg", workers=4, timeout=300)
+    if not quick:
+        r = ctx.l1("FlushRendezvous", "FlushRendezvous_sens.cfg", workers=4, timeout=300, must_hold=False)
+        if r.ok:
+            raise Inconclusive("FlushRendezvous with WatchDone = FALSE should violate LoopComesBack")
+        # open model counterexample (DESIGN C08, "stolen flush result"): recorded, not judged - it has not been reproduced on the code
+        r = ctx.l1("FlushRendezvous", "FlushRendezvous_steal.cfg", workers=4, timeout=300, must_hold=False)
+        ctx.notes.append("FlushRendezvous_steal.cfg (shared result channel: a caller whose context ended between its two selects may take the next "
+                         "caller's result): TLC %s; not reproduced on the real code, not judged" % ("finds no counterexample" if r.ok else "finds the counterexample " + str(r.violated)))
     scs = family(quick)
     for sc in scs:      # scheduling stalls of a loaded machine are recorded and added to every bound
         sc["steps"] = [{"a": "stallWatch"}] + sc["steps"] + [{"a": "stallWatch", "mode": "off"}]
